@@ -83,6 +83,24 @@ add("C09", "exploration", "runtime monitoring under schedule control: a baton sc
     "Per scenario (incl. the same call through modifier clones, a caller whose batch element another thread computes, three threads on a nested call, and an automatically versioned function whose module is loaded afresh before every run) and store/cache state (filesystem cold / warm / warm cache, in-heap backend) every schedule with one preemption (every yield point of the unpreempted run) is executed, plus random and priority-based schedules (thorough: every starting thread, sampled two-preemption schedules, storage_filesystem at line granularity); each run is compared with sequential executions of the same thread bodies (values, body counts, cache accounts, recorded provenance). Evidence reports distinct switch traces.",
     "Only locks and condition variables created through the re-bound factories (RLock / Lock / Condition names of the package's modules) and module-level lock / condition objects of these modules are visible to the scheduler; anything else blocking shows as a watchdog time-out = inconclusive. Line-granularity preemption is finer than what one CPython build does.", "DESIGN.md §4 C09")
 
+# what later rounds added to the workloads (appended to the level text)
+ROUND9 = {
+    "C01": " Also: string constants inside generator expressions and lambdas of a body, helpers decorated without functools.wraps, lambda helpers on continuation lines.",
+    "C02": " Result arrays also zero-, two- and three-dimensional, Fortran-ordered, strided, with an empty axis.",
+    "C03": " Half of the programs call a plain helper through a module-level functools.partial object.",
+    "C07": " Histories also store partitions with entries inherited from a merge parent.",
+    "C09": " One scenario class (automatically versioned caller with two dependencies, different arguments per thread) gives every run a newly forked process, so that per-process lazily built state is built while the threads run.",
+    "C10": " A third of the trees run under context arguments attached at the root, with calls attaching their own at inner edges.",
+    "C12": " Evolutions also with the callee nested in a class, and with the removed callee's name left bound to another function of the same explicit version.",
+    "C13": " Re-binding scenarios also for a function with a declared dependency, and in several statements with all versions asked after each (variable to an opaque object and back, module alias in front of an undefined attribute, helper name to an array).",
+    "C14": " Reference forms also 'declared' (explicit dependencies) and 'nowraps' (decorator without functools.wraps); four-node graphs (aimed family + seeded sample) in the quick tier; aimed builtin-named functions in the random programs.",
+    "C16": " Prevented-parent scenarios go through every nested-call form, also calls attaching context arguments of their own.",
+    "C17": " Levels are also held as values of other (in-memory / on-disk staging) partitions before a further child is made, the holder forgotten in between; a child stored in another cluster than its parent.",
+}
+for _pid, _extra in ROUND9.items():
+    _l, _t, _text, _n, _r = CHECKS[_pid]
+    CHECKS[_pid] = (_l, _t, _text + _extra, _n, _r)
+
 NOT_BUILT = "check not built yet in this round (design in DESIGN.md §4); will be claimed once its monitor exists"
 
 
